@@ -15,6 +15,13 @@ for d, nm in ((0, "Gamma"), (1, "Delta")):
     E("Code/" + nm, "H_eliasCode", "w_eliasCode", ["C02", "C04"], defines=["ELIAS_DELTA=%d" % d], solvers=["kissat", "cadical"], tier="thorough" ,
       functions=["varintElias%sEncode" % nm, "varintElias%sDecode" % nm, "varintBitWriterWrite", "varintBitWriterInit", "varintBitWriterBytes", "varintBitReaderRead", "varintBitReaderInit"],
       note="one code written at an arbitrary start bit 0..63 of a zeroed 32-byte buffer, all values >= 1; bit loops unwound 66 times with unwinding assertions (complete)")
+# quick-tier case split of the same contract: the extreme bit-length classes (1, 2^31.., 2^62.., 2^63..) close in seconds because the
+# prefix length is concrete; bounded (value classes), the full-domain jobs above remain the proof
+for d, nm in ((0, "Gamma"), (1, "Delta")):
+    for k in (0, 1, 31, 62, 63):
+        E("Code/%s/class%d" % (nm, k), "H_eliasCode", "w_eliasCode", ["C02"], defines=["ELIAS_DELTA=%d" % d, "ELIAS_CLASS=%d" % k], solvers=["kissat", "cadical"],
+          functions=["varintElias%sEncode" % nm, "varintElias%sDecode" % nm, "varintBitWriterWrite", "varintBitReaderRead"], bounded="values of one bit-length class [2^%d, 2^%d) only (start bit and ghost bit arbitrary)" % (k, k + 1), timeout=900,
+          note="one code of a value in [2^%d, 2^%d) at an arbitrary start bit 0..63: bit pattern, bit count, decoder inverse; bit loops unwound 66 times with unwinding assertions" % (k, k + 1))
 E("ReaderRead", "H_eliasReaderRead", "varintBitReaderRead", ["C14"], mode="M2", weave=W, defines=["ELIAS_DELTA=0", "ELIAS_ENFORCE=1"], solvers=["minisat", "cadical"])
 E("GammaDecode", "H_eliasGammaDecode", "varintEliasGammaDecode", ["C14"], mode="M2", weave=W, defines=["ELIAS_DELTA=0", "ELIAS_ENFORCE=2"], replace=["varintBitReaderRead"],
   solvers=["minisat", "cadical"])
